@@ -80,7 +80,8 @@ class Contract:
                            body_end=[Clause(c) for c in v.get("body_end", [])],
                            head=list(v.get("head", [])), abstract=v.get("abstract", False), cases=v.get("cases", False),
                            at_exit=[Clause(c) for c in v.get("at_exit", [])],
-                           independent=v.get("independent", False), carried_ok=set(v.get("carried_ok", [])))
+                           independent=v.get("independent", False), carried_ok=set(v.get("carried_ok", [])),
+                           append_only=set(v.get("append_only", [])))
     self.total = g("total", False)          # implicit exceptions are obligations (C18)
     self.total_props = set(g("total_props", ["C18"]))
     self.assumed = g("assumed", False)      # body not verified (out of reach): used by callers, listed as assumption
@@ -141,6 +142,7 @@ class Contract:
     self.value_total = set(g("value_total", []))   # implicit exceptions that are obligations in the value pass
     self.value_pass = g("value_pass", False)    # congruence-mode contract with VALUE-tagged clauses (second pass)
     self.bounded = g("bounded", None)
+    self.proved_by_aspect = dict(g("proved_by_aspect", {}))   # caller-visible clause text -> aspect contract proving it
     self.point_maps = g("point_maps", False)   # collections.defaultdict(list) in this body is a point -> [index] multimap
 
   def all_props(self):
